@@ -297,6 +297,35 @@ def interval_from_decisions(path, var_sub, lo=0, hi=4294967295):
     return (lo, hi)
 
 
+def discr_set_on_path(path, var_sub, universe):
+    """the set of discriminant values the decisions on a path allow for the enum value whose rendering contains var_sub
+    (match arms, == / != comparisons in either form); None if the path never looks at it"""
+    allowed = set(universe)
+    looked = False
+    for t in path:
+        if t[0] != "when":
+            continue
+        m1 = re.match(r"^discr\((.*)\)$", t[1])
+        m2 = re.match(r"^\(discr\((.*)\) (Eq|Ne) (\d+)\)$", t[1])
+        if m1 and var_sub in m1.group(1) and not m2:
+            looked = True
+            if t[2].startswith("other:"):
+                allowed -= {int(x) for x in t[2][6:].split(",") if x.lstrip("-").isdigit()}
+            else:
+                allowed &= {int(x) for x in t[2].split(",") if x.lstrip("-").isdigit()}
+        elif m2 and var_sub in m2.group(1):
+            looked = True
+            c = int(m2.group(3))
+            truth = t[2].startswith("other") or t[2] == "1"
+            if m2.group(2) == "Ne":
+                truth = not truth
+            if truth:
+                allowed &= {c}
+            else:
+                allowed -= {c}
+    return allowed if looked else None
+
+
 def format_on_path(m, p):
     """the header format a path of add_chunk uses: variant name if decided on the path, else None"""
     fmt = None
